@@ -69,6 +69,36 @@ ERRNO = {"enospc": errno.ENOSPC, "eio": errno.EIO, "eacces": errno.EACCES,
          "emfile": errno.EMFILE, "enoent": errno.ENOENT}
 
 
+class _ReadFile:
+    """A file opened for reading whose read() and close() are events too
+    (worlds with ``read_events``): something can happen in the world
+    between the moment a process has read a file and its next step."""
+
+    def __init__(self, world, fo, path) -> None:
+        self._w, self._fo, self._path = world, fo, path
+
+    def read(self, *a):
+        self._w.fs_event("read", self._path)
+        return self._fo.read(*a)
+
+    def close(self):
+        if not self._fo.closed:
+            self._w.fs_event("close-read", self._path)
+        return self._fo.close()
+
+    def __enter__(self):
+        return self
+
+    def __exit__(self, *exc):
+        self.close()
+
+    def __iter__(self):
+        return iter(self._fo)
+
+    def __getattr__(self, name):
+        return getattr(self._fo, name)
+
+
 class SimProc:
     """A simulated OS process: its own module table, its own lock, its own
     open files; dies without running any of its cleanup against the disk."""
@@ -247,6 +277,7 @@ class World:
         self.trace: list[tuple[str, str]] = []
         self.sticky: dict[str, tuple[str, int]] = {}
         self.armed: dict[str, dict] = {}
+        self.read_events = False
         self._baseline = set(sys.modules)
 
     # -- lifecycle ---------------------------------------------------------
@@ -415,13 +446,22 @@ class World:
         key = f"{proc.name}#{proc.fs_calls}"
         fault = self.plan.get(key)
         arm = self.armed.get(proc.name)
-        if fault is None and arm is not None and kind in arm["kinds"]:
+        if fault is None and arm is not None and \
+                (arm["kinds"] is None or kind in arm["kinds"]):
             # "the nth call of one of these kinds from now on"
             arm["nth"] -= 1
             if arm["nth"] <= 0:
                 del self.armed[proc.name]
-                fault = {"kind": arm["kind"], "span": arm.get("span", 1),
-                         "force": True}
+                if arm.get("action") is not None:
+                    # not a failure of this call: something else happens in
+                    # the world just before it (another process writes)
+                    self.fired[arm["kind"]] = \
+                        self.fired.get(arm["kind"], 0) + 1
+                    self.log.add("ACTION", arm["kind"], proc.name, label)
+                    arm["action"]()
+                else:
+                    fault = {"kind": arm["kind"],
+                             "span": arm.get("span", 1), "force": True}
         if fault is None:
             st = self.sticky.get(proc.name)
             if st is not None and st[1] > 0 and kind in APPLICABLE[st[0]]:
@@ -618,7 +658,10 @@ def install() -> None:
         f = w.fs_event("open-read", file)
         if f:
             _raise(f, file)
-        return real.open(file, mode, *a, **k)
+        fo = real.open(file, mode, *a, **k)
+        if w.read_events:
+            return _ReadFile(w, fo, file)
+        return fo
 
     from importlib.machinery import SourceFileLoader
     real_get_data = SourceFileLoader.get_data
